@@ -558,6 +558,17 @@ func c06InflateGenCases(r *Rand, tier string) []string {
 			}
 		}
 	}
+	// every cut point of files of two and three members (the class of gzip_truncated_multi_counted: stored members, the
+	// second one with a name in its header; and Huffman members): a cut inside a later header or body is an error, a cut
+	// exactly between two members is a complete file
+	m1 := c06Gzip([]byte("hi\n"), 0, "")
+	m2 := c06Gzip([]byte("x\nyy\n"), 0, "b.log")
+	m3 := c06Gzip([]byte("GET /a\nGET /a\n"), 9, "")
+	for _, z := range [][]byte{append(append([]byte{}, m1...), m2...), append(append(append([]byte{}, m3...), m1...), m2...)} {
+		for k := 0; k <= len(z); k++ {
+			out = append(out, "gunzip "+Hex(z[:k]))
+		}
+	}
 	n := 260
 	if tier == "thorough" {
 		n = 3000
